@@ -162,8 +162,21 @@ def feed(ck, sh, mm):
         cases = [('G1', 3, 1, 'interior feed, free space'), ('G8', 3, 2, 'feed on wire end grounded at end 2')]
     else:
         cases.append(('G8', 3, 2, 'feed on wire end grounded at end 2'))
-    for gname, n, k, desc in cases:
-        def fn(gname=gname, n=n, k=k):
+    # the load named as "pulse p of the object with tag t" in a model whose tags leave a gap (1, 3, 4): pulse 2 of object 3 is the
+    # interior pulse of the second wire (absolute pulse 3, 0-based 2), pulse 1 of object 4 the junction pulse the third wire brings
+    cases += [('G5', 5, 2, 'load named by object tag, tags 1,3,4', (1, 3)), ('G5', 5, 3, 'load named by object tag, tags 1,3,4', (0, 4))][:1 if ck.tier == 'quick' else 2]
+    for case in cases:
+        gname, n, k, desc = case[:4]
+        addr = case[4] if len(case) > 4 else None
+        tags = [1, 3, 4] if addr else None
+
+        def attach(m, ld, k, addr=addr):
+            if addr is None:
+                m.register_load(ld, k)
+            else:
+                m.register_load(ld, addr[0], addr[1])
+
+        def fn(gname=gname, n=n, k=k, attach=attach, tags=tags):
             f = pos('f', 0.1, 1000)
             V = SC.var('V')
             ZL = SC.var('ZL')
@@ -173,20 +186,20 @@ def feed(ck, sh, mm):
             res = {}
             with symx.object_arrays():
                 for variant in ('none', 'one', 'two', 'sum', 'zero'):
-                    m = catalogue.build(M, gname, f=f)
+                    m = catalogue.build(M, gname, f=f, tags=tags)
                     assert len(m.pulses) == n, (len(m.pulses), n)
                     _stub_fill(m, Z)
                     src = M.Excitation(V)
                     m.register_source(src, k)
                     if variant == 'one':
-                        m.register_load(M.Impedance_Load(ZL), k)
+                        attach(m, M.Impedance_Load(ZL), k)
                     elif variant == 'two':
-                        m.register_load(M.Impedance_Load(ZL), k)
-                        m.register_load(M.Impedance_Load(ZL2), k)
+                        attach(m, M.Impedance_Load(ZL), k)
+                        attach(m, M.Impedance_Load(ZL2), k)
                     elif variant == 'sum':
-                        m.register_load(M.Impedance_Load(ZL + ZL2), k)
+                        attach(m, M.Impedance_Load(ZL + ZL2), k)
                     elif variant == 'zero':
-                        m.register_load(M.Impedance_Load(0j), k)
+                        attach(m, M.Impedance_Load(0j), k)
                     m.compute()
                     res[variant] = (src.impedance, m.Z, m.current)
             return dict(inputs=dict(f=f, V=V, ZL=ZL, ZL2=ZL2, Z=list(Z.reshape(-1))), res=res, n=n, k=k)
@@ -198,15 +211,20 @@ def feed(ck, sh, mm):
                  ('two loads = sum (feed impedance)', eq_term(r['two'][0], r['sum'][0])),
                  ('zero load changes nothing', eq_term(r['zero'][0], r['none'][0]))]
             n = o['n']
+            # the same statement one step earlier (decided in linear arithmetic whatever the matrix is): the load is a series element
+            # of the feed pulse and of no other pulse
+            g.insert(0, ('load sits on the feed pulse and only there (system matrix)',
+                         z3.And(*([eq_term(r['one'][1][i][i], r['none'][1][i][i]) for i in range(n) if i != o['k']]
+                                  + [z3.Or(eq_term(ZL, SC(0.0, 0.0)), z3.Not(eq_term(r['one'][1][o['k']][o['k']], r['none'][1][o['k']][o['k']])))]))))
             g.append(('two loads = sum (matrix)', z3.And(*[eq_term(r['two'][1][i][j], r['sum'][1][i][j])
                                                            for i in range(n) for j in range(n)])))
             return g
 
-        def replay(c, gname_, out, gname=gname, n=n, k=k):
+        def replay(c, gname_, out, gname=gname, n=n, k=k, attach=attach, tags=tags):
             Zc = np.array(c['Z'], dtype=complex).reshape(n, n)
             zin = {}
             for variant in ('none', 'one', 'two', 'sum', 'zero'):
-                m = catalogue.build(mm, gname, f=c['f'])
+                m = catalogue.build(mm, gname, f=c['f'], tags=tags)
 
                 def fill(m=m):
                     m.Z = Zc.copy()
@@ -214,14 +232,14 @@ def feed(ck, sh, mm):
                 src = mm.Excitation(complex(c['V']))
                 m.register_source(src, k)
                 if variant == 'one':
-                    m.register_load(mm.Impedance_Load(c['ZL']), k)
+                    attach(m, mm.Impedance_Load(c['ZL']), k)
                 elif variant == 'two':
-                    m.register_load(mm.Impedance_Load(c['ZL']), k)
-                    m.register_load(mm.Impedance_Load(c['ZL2']), k)
+                    attach(m, mm.Impedance_Load(c['ZL']), k)
+                    attach(m, mm.Impedance_Load(c['ZL2']), k)
                 elif variant == 'sum':
-                    m.register_load(mm.Impedance_Load(c['ZL'] + c['ZL2']), k)
+                    attach(m, mm.Impedance_Load(c['ZL'] + c['ZL2']), k)
                 elif variant == 'zero':
-                    m.register_load(mm.Impedance_Load(0j), k)
+                    attach(m, mm.Impedance_Load(0j), k)
                 m.compute()
                 zin[variant] = src.impedance
             cond = np.linalg.cond(Zc)
@@ -235,9 +253,9 @@ def feed(ck, sh, mm):
                 bad = 'zero load changes feed impedance %r -> %r' % (zin['none'], zin['zero'])
             if bad is None:
                 return None
-            return ('C08:feed:%s:pulse%d' % (gname, k), bad, dict(kind='feed', geometry=gname, pulse=k))
+            return ('C08:feed:%s:pulse%d%s' % (gname, k, ':by-tag' if tags else ''), bad, dict(kind='feed', geometry=gname, pulse=k))
 
-        prove_paths(ck, 'feed-%s-p%d' % (gname, k), fn, goals, replay, expect_exc=(ZeroDivisionError,))
+        prove_paths(ck, 'feed-%s-p%d%s' % (gname, k, '-by-tag' if addr else ''), fn, goals, replay, expect_exc=(ZeroDivisionError,))
         ck.bounds.setdefault('feed_cases', []).append('%s n=%d pulse=%d (%s)' % (gname, n, k, desc))
 
 
